@@ -5,5 +5,5 @@ PROP = dict(
     level_note="Trusted: the harness's in-memory storage engine as a model of crashes (a dead engine ignores everything after the crash point; file mode mirrors pkg/storage/file.go, atomic mode is an idealised object store). A crash is modelled as fail-stop of one process between storage steps; torn single writes and lost fsyncs are not modelled. Double crashes are covered only in the thorough tier.",
     technique="property-based testing (rapid) with exhaustive crash-point enumeration per generated case",
     assumptions=["crash = fail-stop between storage steps of an in-memory model of the storage engine", "state is compared as pool/branch names plus per-branch value multisets and vector counts"],
-    tests=[dict(name="TestCrashPoints", quick=(8, 20), thorough=(16, 100))],
+    tests=[dict(name="TestCrashPoints", quick=(8, 20), thorough=(16, 40), timeout=dict(quick=1500, thorough=3400))],
 )
